@@ -2,7 +2,7 @@
 # confirm_seed.sh <Cxx> : re-confirm a seeded change in its scratch worktree /tmp/mut/<Cxx>/repo
 #   demo alone passes, patch alone keeps the 93 tests green, patch+demo fails.
 id=$1; base=${2:-/tmp/mut}; W=$base/$id/repo; O=$base/$id/out
-export CARGO_NET_OFFLINE=true CARGO_TARGET_DIR=/tmp/mut/target
+export CARGO_NET_OFFLINE=true CARGO_TARGET_DIR=${SEED_TARGET:-/tmp/mut/target}
 cd $W || exit 2
 clean() { git checkout -q -- . && git clean -qfd; }
 summ() { grep -E "^test result" | head -1; }
